@@ -19,7 +19,24 @@ ASSUMPTIONS = [
     "topological tie-breaks are explored by replacing topological_sort as seen by teaal.ir.flow_graph only with Kahn's algorithm "
     "driven by Hypothesis-drawn choices (a proxy object for the name `nx` inside that module; /repo is not edited)",
 ]
-EXCLUDED = {}
+
+
+def spacetime_with_dynamic_partitioning(case):
+    """
+    F-C10-1: nothing in the flow graph orders the Graphics node (createCanvas) relative to the first dynamic-partitioning
+    nodes, but translating createCanvas snapshots the tensors' current rank lists: under a linear extension that places it
+    after `A_IJ2IJ1I = ...` the activities address the intermediate rank (ij1i), which no loop binds.  Class: a spacetime
+    section on an Einsum with an occupancy (dynamic) partitioning.
+    """
+    spec = case.get("spec") or {}
+    for out in (spec.get("spacetime") or {}):
+        for key, dirs in (spec.get("partitioning") or {}).get(out, []):
+            if any(d.startswith("uniform_occupancy") for d in dirs):
+                return True
+    return False
+
+
+EXCLUDED = {"spacetime_with_dynamic_partitioning": spacetime_with_dynamic_partitioning}
 
 
 class NxProxy(types.ModuleType):
@@ -203,4 +220,63 @@ class ShippedMetrics(Part):
         return {"nontrivial": between > 0, "classes": ["shipped=" + case["shipped"]]}
 
 
-PARTS = [Main(), ShippedMetrics()]
+class Observable(Part):
+    """
+    The dependence relation that matters is the real one: a dependence the graph forgot shows up as an unbound name or a
+    wrong tensor under SOME linear extension.  Whole programs are compiled under drawn tie-breaks and judged by closedness
+    (C06's analysis) and, for executable families, by execution against dense evaluation.
+    """
+    name = "tie-breaks-observable"
+    rule = ("Hypothesis draws a specification (every family, incl. two projected inputs and dynamic followers with halo), inputs and "
+            "tie-break choices; the WHOLE program is compiled with topological_sort (as seen by teaal.ir.flow_graph) replaced by "
+            "Kahn's algorithm on the drawn choices; the emitted text must be closed Python (definite assignment) and, for executable "
+            "families, compute the dense result on the reference model. Cases in known-finding classes of C01/C04/C06 are skipped. "
+            "Non-trivial = the drawn order changed the emitted text w.r.t. the default order, or >= 1 non-update statement in a loop.")
+
+    def budget(self, tier):
+        return {"quick": dict(examples=250, shards=5, seconds=80),
+                "thorough": dict(examples=2500, shards=16, seconds=900)}[tier]
+
+    def strategy(self, tier):
+        @st.composite
+        def strat(draw):
+            c = draw(gen.corpus_case(max_extent=3))
+            c["choices"] = draw(st.lists(st.integers(0, 7), min_size=8, max_size=40))
+            return c
+        return strat()
+
+    def run_case(self, case):
+        import networkx as nx
+        import teaal.ir.flow_graph as fgmod
+        from .. import pyscope
+        from . import c01, c04, c06
+        from .. import hfmodel as M
+        spec = case["spec"]
+        for name, pred in list(c01.EXCLUDED.items()) + list(c06.EXCLUDED.items()) + \
+                (list(c04.EXCLUDED.items()) if case.get("template") else []):
+            if pred(case):
+                raise Skip("known-finding-of-other-property", name)
+        default_text = str(oracle.compile_or_skip(spec, metrics=False, crash_is_violation=False))
+        real = fgmod.nx
+        fgmod.nx = NxProxy(nx, kahn(case["choices"]))
+        try:
+            hf = oracle.compile_or_skip(spec, metrics=False, crash_is_violation=False)
+        finally:
+            fgmod.nx = real
+        text = str(hf)
+        tree = c06.assert_closed(text, spec, what="program under drawn tie-breaks")
+        executable = not case.get("reverse_follow") and "uniform_occupancy" not in S.to_yaml(spec) or not case.get("template")
+        ran = False
+        if executable:
+            try:
+                run = oracle.run_or_violation(text, case, what="program under drawn tie-breaks")
+                oracle.compare_outputs(case, run, what="program under drawn tie-breaks")
+                ran = True
+            except Skip:
+                pass
+        cl = ["family=%s" % case.get("family"), "executed" if ran else "static-only",
+              "text-changed" if text != default_text else "text-same"]
+        return {"nontrivial": text != default_text or pyscope.non_update_in_loop(tree) >= 1, "classes": cl}
+
+
+PARTS = [Main(), ShippedMetrics(), Observable()]
